@@ -12,6 +12,7 @@ import Noodles.Trunc.DriverC13
 import Noodles.Bam.DriverC05
 import Noodles.Bgzf.DriverC14
 import Noodles.Vcf.DriverC09
+import Noodles.Sam.DriverC06
 namespace Noodles
 open Noodles.Wire
 
@@ -30,6 +31,7 @@ def dispatch (line : String) : String :=
   | "c05" :: rest => Bam.Driver.handle rest
   | "c14" :: rest => Bgzf.SM.handleC14 rest
   | "c09" :: rest => Vcf.Driver.handle rest
+  | "c06" :: rest => Sam.Drv.handleC06 rest
   | _ => "bad-suite"
 
 end Noodles
